@@ -136,7 +136,7 @@ def gen_cases(tier, seed):
 
 def required(tier):
     return {"conv.pairs_roundtrip": 50000, "conv.class.empty": 9, "conv.padding": 40, "conv.main_runs": 150, "prec.configs": 2000,
-            "prec.pairs_observed": 50, "prec.outputs_judged": 20, "prec.class.flag_over_file": 400, "prec.class.empty_flag_over_file": 40, "prec.class.toml_over_json": 150, "prec.class.file_over_default": 300,
+            "prec.pairs_observed": 50, "prec.outputs_judged": 20, "prec.logging_state_judged": 100, "prec.class.flag_over_file": 400, "prec.class.empty_flag_over_file": 40, "prec.class.toml_over_json": 150, "prec.class.file_over_default": 300,
             "prec.class.redeclared_-0_subcommands": 30, "unknown.configs": 10, "parser.subcommands": 15}
 
 
@@ -243,7 +243,15 @@ def run_main(argv, stdin_bytes, rpc=None, passphrase=None):
                 pass
         for (mod, attr), v in saved.items():
             setattr(mod, attr, v)
-        for h in list(bits.log.handlers):
+        # the logging configuration the run leaves behind: the level is only "in effect" if records of that level emitted by the
+        # library's modules can actually reach the handler (module loggers + the `bits` logger + its handlers)
+        import logging as _lg
+        try:
+            # real module loggers only (objects the library created with getLogger(__name__)); the `bits` logger's own level does not
+            # filter records propagated from its children, its HANDLERS do
+            mods = [lg_ for n, lg_ in _lg.root.manager.loggerDict.items() if n.startswith("bits.") and isinstance(lg_, _lg.Logger)]
+            obs["logging.blocked_below"] = [max([lg_.getEffectiveLevel() for lg_ in mods] + [h.level for h in bits.log.handlers] or [0])]
+        except Exception:
             pass
     return {"obs": obs, "out": outb.getvalue(), "ret": ret, "exit": ex, "err": errb.getvalue()}
 
@@ -263,13 +271,15 @@ def write_configs(d, json_state, toml_state, extra_unknown=False):
     if json_state is not None:
         js = dict(json_state)
         if extra_unknown:
-            js.update({"no_such_option": "x", "subcommand": "evil", "in_file": "/nonexistent", "update": "daily", "load_config": "x", "__init__": "x", "__class__": "x", "__dict__": "x", "config_dir": "/nonexistent"})
+            js.update({"no_such_option": "x", "subcommand": "evil", "in_file": "/nonexistent", "update": "daily", "load_config": "x", "__init__": "x", "__class__": "x", "__dict__": "x", "config_dir": "/nonexistent",
+                       "output-format": "bin", "input-format": "bin", "log-level": "debug", "rpc-url": "http://hyphen:1", "Network": "regtest", "NETWORK": "regtest", " network": "regtest"})
         with open(os.path.join(d, "config.json"), "w") as f:
             json.dump(js, f)
     if toml_state is not None:
         ts = dict(toml_state)
         if extra_unknown:
             ts.update({"no_such_option": "x", "subcommand": "evil", "update": True, "load_config": 1, "__init__": "x", "__doc__": "x", "__eq__": "x"})
+            ts.update({"output-format": "bin", "input-format": "bin", "log-level": "debug", "rpc-url": "http://hyphen:2", "Output_Format": "bin"})
         with open(os.path.join(d, "config.toml"), "w") as f:
             for k, v in ts.items():
                 f.write(f'{k} = {json.dumps(v)}\n')
@@ -477,6 +487,13 @@ def _precedence(ctx, params, kind):
                             if r["out"].strip() != out_oracle(exp):
                                 ctx.violation(f"precedence/result-not-for-value-in-effect/{subn}/{opt}/{exp}", f"bits {' '.join(argv[2:])} with {cfgcls}: value in effect {exp!r} reaches {site}, "
                                               f"but the command printed {r['out'][:70]!r}, expected {out_oracle(exp)!r}")
+                        if opt == "log_level" and seen[0] == want and kind == "precedence":
+                            import logging as _lg
+                            blocked = (r["obs"].get("logging.blocked_below") or [0])[0]
+                            ctx.count("prec.logging_state_judged")
+                            if blocked > getattr(_lg, str(exp).upper(), 0):
+                                ctx.violation(f"precedence/log-level-not-in-effect/{subn}/{exp}", f"bits {' '.join(argv[2:])} with {cfgcls}: log level {exp!r} was set, but records below "
+                                              f"{_lg.getLevelName(blocked)} cannot reach the handler (a module logger or handler is stricter)")
                         if seen[0] != want:
                             wrong_layer = _which_layer(seen[0], opt, flag_val, js, ts)
                             key = f"precedence/wrong-value/{subn}/{opt}/expected-{layer}-got-{wrong_layer}" if kind == "precedence" else f"unknown-keys/changed-value/{subn}/{opt}"
